@@ -28,7 +28,7 @@ proof fn fold_sound(s: Seq<InterestKind>)
     }
 }
 
-// ---- history model. One callsite c; collectors are ints. `ans[d]` is d's static answer for c (a collector whose
+// ---- history model. One callsite c; collectors are ints. `ans(d)` is d's static answer for c (a collector whose
 // static answer changes must call rebuild_interest_cache - that is the `rebuild` step with a new ans map).
 struct St {
     live: Set<int>,                 // collectors with a live Dispatch
@@ -36,39 +36,39 @@ struct St {
     cache: Option<InterestKind>,    // None = callsite not yet registered (0xFF)
     max_level: int,                 // MAX_LEVEL rank 0..5
 }
-spec fn answers(asked: Seq<int>, ans: Map<int, InterestKind>) -> Seq<InterestKind> { asked.map(|i: int, d: int| ans[d]) }
+spec fn answers(asked: Seq<int>, ans: spec_fn(int) -> InterestKind) -> Seq<InterestKind> { asked.map(|i: int, d: int| ans(d)) }
 spec fn hint_rank(h: Option<int>) -> int { match h { Some(r) => r, None => 5 } }
 
 // I1: the cache (if any) is the fold over a list that contains every live collector; MAX_LEVEL bounds every live hint.
-spec fn inv(s: St, ans: Map<int, InterestKind>, hint: Map<int, Option<int>>) -> bool {
+spec fn inv(s: St, ans: spec_fn(int) -> InterestKind, hint: spec_fn(int) -> Option<int>) -> bool {
     &&& (s.cache is Some ==> s.cache == Some(fold_and(answers(s.asked, ans))) && forall|d: int| s.live.contains(d) ==> s.asked.contains(d))
-    &&& forall|d: int| s.live.contains(d) ==> hint_rank(hint[d]) <= s.max_level
+    &&& forall|d: int| s.live.contains(d) ==> hint_rank(hint(d)) <= s.max_level
 }
 
 // contract of rebuild_interest / register_dispatch (Kani: c01_rebuild_interest_bounded + fold lemma): afterwards the cache of
 // every REGISTERED callsite is the fold over exactly the live collectors, MAX_LEVEL = max live hint.
-spec fn after_rebuild(s: St, s2: St, live_list: Seq<int>, hint: Map<int, Option<int>>) -> bool {
+spec fn after_rebuild(s: St, s2: St, live_list: Seq<int>, hint: spec_fn(int) -> Option<int>) -> bool {
     &&& s2.live == s.live
     &&& (forall|d: int| s.live.contains(d) <==> live_list.contains(d))
     &&& (s.cache is Some ==> s2.cache is Some)
     &&& (s2.cache is Some ==> s2.asked == live_list)
-    &&& (forall|d: int| s.live.contains(d) ==> hint_rank(hint[d]) <= s2.max_level)
+    &&& (forall|d: int| s.live.contains(d) ==> hint_rank(hint(d)) <= s2.max_level)
 }
 
-proof fn step_rebuild_preserves(s: St, s2: St, live_list: Seq<int>, ans: Map<int, InterestKind>, hint: Map<int, Option<int>>)
+proof fn step_rebuild_preserves(s: St, s2: St, live_list: Seq<int>, ans: spec_fn(int) -> InterestKind, hint: spec_fn(int) -> Option<int>)
     requires after_rebuild(s, s2, live_list, hint),
              s2.cache is Some ==> s2.cache == Some(fold_and(answers(live_list, ans))),
     ensures inv(s2, ans, hint)
 { }
 
 // new collector d (Dispatch::new -> register_dispatch): live grows, then rebuild. drop: live shrinks, nothing else changes.
-proof fn step_drop_preserves(s: St, d: int, ans: Map<int, InterestKind>, hint: Map<int, Option<int>>)
+proof fn step_drop_preserves(s: St, d: int, ans: spec_fn(int) -> InterestKind, hint: spec_fn(int) -> Option<int>)
     requires inv(s, ans, hint)
     ensures inv(St { live: s.live.remove(d), ..s }, ans, hint)
 { }
 
 // first hit of the callsite (register): cache := fold over the live list (Kani: c01_rebuild_callsite_interest_bounded)
-proof fn step_register_preserves(s: St, live_list: Seq<int>, ans: Map<int, InterestKind>, hint: Map<int, Option<int>>)
+proof fn step_register_preserves(s: St, live_list: Seq<int>, ans: spec_fn(int) -> InterestKind, hint: spec_fn(int) -> Option<int>)
     requires inv(s, ans, hint), s.cache is None, forall|d: int| s.live.contains(d) <==> live_list.contains(d)
     ensures inv(St { cache: Some(fold_and(answers(live_list, ans))), asked: live_list, ..s }, ans, hint)
 { }
@@ -80,26 +80,28 @@ proof fn step_register_preserves(s: St, live_list: Seq<int>, ans: Map<int, Inter
 // lets an emission through iff the current collector's own filter accepts it.
 spec fn accepts(a: InterestKind, dynamic: bool) -> bool { a == InterestKind::Always || (a == InterestKind::Sometimes && dynamic) }
 
-proof fn guard_exact(s: St, cur: int, level: int, dynamic: bool, ans: Map<int, InterestKind>, hint: Map<int, Option<int>>)
+proof fn guard_exact(s: St, cur: int, level: int, dynamic: bool, ans: spec_fn(int) -> InterestKind, hint: spec_fn(int) -> Option<int>)
     requires
         inv(s, ans, hint), s.live.contains(cur), s.cache is Some, 1 <= level <= 5,
         // self-consistency of the current collector (hypothesis of the property)
-        ans[cur] == InterestKind::Never ==> !dynamic,
-        ans[cur] == InterestKind::Always ==> dynamic,
-        accepts(ans[cur], dynamic) ==> level <= hint_rank(hint[cur]),
+        ans(cur) == InterestKind::Never ==> !dynamic,
+        ans(cur) == InterestKind::Always ==> dynamic,
+        accepts(ans(cur), dynamic) ==> level <= hint_rank(hint(cur)),
     ensures ({
         let b = s.cache->Some_0;
         let pass = level <= s.max_level && b != InterestKind::Never && (b == InterestKind::Always || dynamic);
-        pass <==> accepts(ans[cur], dynamic)
+        pass <==> accepts(ans(cur), dynamic)
     })
 {
     let sq = answers(s.asked, ans);
     fold_sound(sq);
+    assert(s.asked.contains(cur));
     let i = choose|i: int| 0 <= i < s.asked.len() && s.asked[i] == cur;
-    assert(sq[i] == ans[cur]);
+    assert(sq.len() == s.asked.len());
+    assert(sq[i] == ans(cur));
 }
 
 // history: inv holds initially (nothing registered, nobody live) and every step preserves it => holds after every finite history.
-proof fn init_inv(ans: Map<int, InterestKind>, hint: Map<int, Option<int>>)
+proof fn init_inv(ans: spec_fn(int) -> InterestKind, hint: spec_fn(int) -> Option<int>)
     ensures inv(St { live: Set::empty(), asked: Seq::empty(), cache: None, max_level: 0 }, ans, hint)
 { }
